@@ -30,6 +30,9 @@ func runC13(c *mon.Ctx) {
 		if i%25 == 0 {
 			c13Backlog(c, r.Fork(5))
 		}
+		if i%25 == 12 {
+			c13FullPackets(c, r.Fork(7))
+		}
 		if i%40 == 0 {
 			c13BucketIDs(c, r.Fork(6), c.Batch+i/40)
 		}
@@ -918,4 +921,79 @@ func c13BucketIDs(c *mon.Ctx, r *mon.Rand, which int) {
 	}
 	c.Event("large-histograms-checked", 1)
 	c.Distinct(mon.Hash64("bucket-ids", fmt.Sprint(n, proto)))
+}
+
+// c13FullPackets: the largest packet limit the transport allows (65,000 bytes)
+// and thousands of samples on the buckets of one histogram whose range tags
+// differ in length from bucket to bucket (the first ones long, the last one
+// short): packets fill up to the limit. Every sample arrives exactly once.
+func c13FullPackets(c *mon.Ctx, r *mon.Rand) {
+	proto := m3.Compact
+	if r.Bool() {
+		proto = m3.Binary
+	}
+	env, err := newM3Env(1, m3.Options{Service: "svc", Env: "test", Protocol: proto, MaxQueueSize: 4096, MaxPacketSizeBytes: 65000}, nil)
+	if err != nil {
+		c.Inconclusive("NewReporter: " + err.Error())
+		return
+	}
+	c.Eval(1)
+	desc := map[string]interface{}{"scenario": "full packets under the largest limit", "protocol": protoName(proto)}
+	stopWatch := c.Watchdog(300*time.Second, "m3-call-or-close-does-not-return", desc)
+	defer stopWatch()
+	base := time.Hour + time.Minute + time.Second
+	isDur := r.Bool()
+	per := r.Range(2500, 4500)
+	var sent [3]int64
+	c.Guard("panic-m3-producer", func() interface{} { return desc }, func() {
+		var bk [3]tally.CachedHistogramBucket
+		if isDur {
+			h := env.Rep.AllocateHistogram("full", map[string]string{"k": "v"}, tally.DurationBuckets{base + 1, base + 2, base + 3, 2 * time.Hour})
+			bk[0], bk[1], bk[2] = h.DurationBucket(base+1, base+2), h.DurationBucket(base+2, base+3), h.DurationBucket(2*time.Hour, time.Duration(math.MaxInt64))
+		} else {
+			h := env.Rep.AllocateHistogram("full", map[string]string{"k": "v"}, tally.ValueBuckets{123456.789012, 123456.789013, 123456.789014, 2})
+			bk[0], bk[1], bk[2] = h.ValueBucket(123456.789012, 123456.789013), h.ValueBucket(123456.789013, 123456.789014), h.ValueBucket(123456.789014, math.MaxFloat64)
+		}
+		for i := 0; i < per; i++ {
+			k := 0
+			if i%16 == 15 {
+				k = 1 + r.Intn(2)
+			}
+			bk[k].ReportSamples(1)
+			sent[k]++
+		}
+	})
+	closeErr := env.Rep.Close()
+	complete, why := env.finish()
+	if closeErr != nil {
+		c.Violation("close-error", map[string]interface{}{"why": closeErr.Error(), "case": desc})
+	}
+	if !complete {
+		c.Inconclusive(why)
+		return
+	}
+	dgrams := env.Sinks[0].Datagrams()
+	msgs, problems := decodeAll(proto, dgrams)
+	for _, p := range problems {
+		c.Violation("malformed-datagram", map[string]interface{}{"why": p, "case": desc})
+		return
+	}
+	var got int64
+	for _, m := range msgs {
+		for _, met := range m.Batch.Metrics {
+			if met.Name == "full" {
+				got += met.Value.Count
+			}
+		}
+	}
+	maxLen := 0
+	for _, d := range dgrams {
+		if len(d) > maxLen {
+			maxLen = len(d)
+		}
+	}
+	if want := sent[0] + sent[1] + sent[2]; got != want {
+		c.Violation("not-exactly-once", map[string]interface{}{"why": fmt.Sprintf("%d histogram samples were reported one by one (packet limit 65000, buckets with range tags of different lengths); %d arrived in %d datagrams, the largest of %d bytes", want, got, len(dgrams), maxLen), "case": desc})
+	}
+	c.Event("full-packet-samples", int64(per))
 }
